@@ -11,10 +11,10 @@
                                                           is below the precedence of the operator applied to it
       1578-1608  CppOperatorPrecedences                   translated: Generated.CppTemplates.cppPrecBinary / cppPrecUnary
       1385-1410  on_or_compare … on_term                  all → proc_binary_operation
-      1474-1488  proc_binary_operation_expression         left fold over the chain, one template instance per operator, every operand
+      1486-1501  proc_binary_operation_expression         left fold over the chain, one template instance per operator, every operand
                                                           guarded by is_regrouped_operand (the first one against operators[0]),
-                                                          `primary_raw = right_raw` after each step (type of the LEFT operand of the
-                                                          next operator is the type of the previous RIGHT element, not of the fold)
+                                                          `primary_raw` (type of the LEFT operand of the next operator) = the type of the
+                                                          previous RIGHT element unless it already is floating point (`Ty.acc`, 6063966)
       1457-1458  on_ternary_operator, 1518-1519 on_group
     data/cpp/template/operation/*.j2, expression/group.j2  via Tranp.Generated.CppTemplates (translator) — the model
                                                           *interprets* the generated branches, it does not restate them
@@ -84,6 +84,10 @@ def Ty.name : Ty → Str
 def Ty.isFloat : Ty → Bool
   | .float | .double => true
   | _ => false
+
+/-- py2cpp.py:1497 (6063966): the type kept for the accumulated left operand of a chain — once floating point it stays
+    floating point, otherwise it is the type of the element just consumed -/
+def Ty.acc (pty ty : Ty) : Ty := if pty.isFloat then pty else ty
 
 /-! ## nodes -/
 
@@ -280,11 +284,11 @@ def emitRaw : Node → List RTok
     -- py2cpp.py:1476: the first operand is guarded against `operators[0]` (a chain always has one; none = not guarded)
     emitRest (guardIf (match rest.firstTok with | some o => isRegrouped first o | none => false) (emitRaw first)) fty rest
   | .ternary p c s => render ternaryOperator {} [(sPrimary, emitRaw p), (sCondition, emitRaw c), (sSecondary, emitRaw s)]
-/-- py2cpp.py:1474-1488: `primary`/`primary_raw` threaded through the chain, each right operand guarded -/
+/-- py2cpp.py:1486-1499: `primary`/`primary_raw` threaded through the chain, each right operand guarded -/
 def emitRest (primary : List RTok) (pty : Ty) : Rest → List RTok
   | .nil => primary
   | .cons op dict ty e rest =>
-    emitRest (renderBinary op dict pty ty primary (guardIf (isRegrouped e op.tok) (emitRaw e))) ty rest
+    emitRest (renderBinary op dict pty ty primary (guardIf (isRegrouped e op.tok) (emitRaw e))) (pty.acc ty) rest
 end
 
 def CTok.text : CTok → Str
@@ -446,7 +450,7 @@ def core : Node → Bool
   | .ternary _ _ _ => false
 def coreRest (pty : Ty) : Rest → Bool
   | .nil => true
-  | .cons op _ ty e rest => op.cpp.isSome && !(op == .mod && (pty.isFloat || ty.isFloat)) && core e && coreRest ty rest
+  | .cons op _ ty e rest => op.cpp.isSome && !(op == .mod && (pty.isFloat || ty.isFloat)) && core e && coreRest (pty.acc ty) rest
 end
 
 mutual
